@@ -15,7 +15,16 @@
      KGET                                -> state(6)
      KCMD fault stdinhex argvtok...      -> rc stdouthex stderrhex        (co-process: acts on the held state)
      SESSION cfg(12) cut faults state(6) -> outcome ncmds fin_at started py | events | final state
-        faults = i,j,k or "-" ; events = rc:argv(.)[:stdinhex] or M:name, joined by blanks *)
+        faults = i,j,k or "-" ; events = rc:argv(.)[:stdinhex] or M:name, joined by blanks
+     SUBCLASS a b                        -> 1|0          (Model/FwLog.v: issubclass(a, b))
+     SWALLOWS a                          -> 1|0          (log_swallows: named by helpers.log's except clauses)
+     LOGCALL mode i0 cls both nlines     -> RETURN | ESCAPE cls      (one call of helpers.log)
+        mode = ok|once|from : stream operation i0 of the call raises cls (once / from then on;
+        both=1: sys.stdout.flush fails too).  operation 0 = stdout.flush, 1.. = stderr.write, last = stderr.flush
+     SESSIONL v mode j0 i0 cls both nl pre cfg(12) cut faults state(6)
+                                         -> outcome ncmds fin_at py nlog | events | final state
+        v = verbosity; (mode j0 i0 cls both) as above for log call j0 of the session; nl = lines per message;
+        pre = levels of the debug calls before `try:` (l,l,l or "-") *)
 let split_on c s = if s = "" then [] else String.split_on_char c s
 let tok_of s = bytes_of_hex s
 let str_of_tok t = hex_of_bytes t
@@ -96,6 +105,31 @@ let event_str = function
 let outcome_str = function ExitReturn -> "RETURN" | ExitFatal -> "FATAL" | ExitCrash -> "CRASH"
 let rec take n l = if n = 0 then [] else match l with [] -> [] | x :: r -> x :: take (n - 1) r
 let rec drop n l = if n = 0 then l else match l with [] -> [] | _ :: r -> drop (n - 1) r
+let classes = [
+  "Exception", CException; "OSError", COSError; "BlockingIOError", CBlockingIOError;
+  "ChildProcessError", CChildProcessError; "ConnectionError", CConnectionError;
+  "BrokenPipeError", CBrokenPipeError; "ConnectionAbortedError", CConnectionAbortedError;
+  "ConnectionRefusedError", CConnectionRefusedError; "ConnectionResetError", CConnectionResetError;
+  "FileExistsError", CFileExistsError; "FileNotFoundError", CFileNotFoundError;
+  "InterruptedError", CInterruptedError; "IsADirectoryError", CIsADirectoryError;
+  "NotADirectoryError", CNotADirectoryError; "PermissionError", CPermissionError;
+  "ProcessLookupError", CProcessLookupError; "TimeoutError", CTimeoutError;
+  "ValueError", CValueError; "UnicodeError", CUnicodeError; "UnicodeEncodeError", CUnicodeEncodeError;
+  "UnicodeDecodeError", CUnicodeDecodeError; "UnicodeTranslateError", CUnicodeTranslateError;
+  "RuntimeError", CRuntimeError; "RecursionError", CRecursionError; "NotImplementedError", CNotImplementedError;
+  "TypeError", CTypeError; "AttributeError", CAttributeError; "LookupError", CLookupError;
+  "KeyError", CKeyError; "IndexError", CIndexError; "ArithmeticError", CArithmeticError;
+  "ZeroDivisionError", CZeroDivisionError; "MemoryError", CMemoryError; "AssertionError", CAssertionError;
+  "EOFError", CEOFError; "BufferError", CBufferError ]
+let cls_of s = try List.assoc s classes with Not_found -> failwith ("bad class " ^ s)
+let str_of_cls c = fst (List.find (fun (_, x) -> x = c) classes)
+let env_of mode j0 i0 cls both =
+  let j0 = nat_of_int (int_of_string j0) and i0 = nat_of_int (int_of_string i0) in
+  match mode with
+  | "ok" -> env_ok
+  | "once" -> env_once j0 i0 (cls_of cls)
+  | "from" -> env_from j0 i0 (cls_of cls) (b01 both)
+  | m -> failwith ("bad mode " ^ m)
 let held = ref k_empty
 let handle = function
   | "KSET" :: st -> held := state_of st; "OK"
@@ -120,5 +154,27 @@ let handle = function
              (String.concat "." (List.map str_of_tok r.r_py.py_tokens))
              (String.concat " " (List.map event_str r.r_events)) (str_of_state r.r_final)
        | _ -> "ERROR bad session")
+  | ["SUBCLASS"; a; b] -> s01 (subclass (cls_of a) (cls_of b))
+  | ["SWALLOWS"; a] -> s01 (log_swallows (cls_of a))
+  | ["LOGCALL"; mode; i0; cls; both; nl] ->
+      (match log_call log_swallows (env_of mode "0" i0 cls both O) (nat_of_int (int_of_string nl)) with
+       | None -> "RETURN"
+       | Some e -> "ESCAPE " ^ str_of_cls e)
+  | "SESSIONL" :: v :: mode :: j0 :: i0 :: cls :: both :: nl :: pre :: rest ->
+      let c = cfg_of (take 12 rest) in
+      (match c.c_method, drop 12 rest with
+       | MPf _, _ -> "ERROR sessionL does not model pf"
+       | _, cut :: fl :: st ->
+           let nl = nat_of_int (int_of_string nl) in
+           let lg = { lg_verbose = nat_of_int (int_of_string v); lg_sw = log_swallows;
+                      lg_env = env_of mode j0 i0 cls both; lg_nl = (fun _ -> nl) } in
+           let pre = if pre = "-" then [] else List.map (fun x -> nat_of_int (int_of_string x)) (String.split_on_char ',' pre) in
+           let rl = sessionL lg pre c (nat_of_int (int_of_string cut)) (faults_of fl) (state_of st) in
+           let r = rl.rl_res in
+           Printf.sprintf "%s %d %d %d,%s,%s %d | %s | %s" (outcome_str r.r_outcome) (int_of_nat r.r_ncmds)
+             (int_of_nat r.r_fin_at) (int_of_z r.r_py.py_started) (s01 r.r_py.py_loaded)
+             (String.concat "." (List.map str_of_tok r.r_py.py_tokens)) (int_of_nat rl.rl_nlog)
+             (String.concat " " (List.map event_str r.r_events)) (str_of_state r.r_final)
+       | _ -> "ERROR bad sessionL")
   | _ -> "ERROR bad command"
 let () = main_loop handle
